@@ -262,6 +262,21 @@ def classify(ctx, u, f, s, keys, fold):
                                 fs = F.facts_at_ast(x) or frozenset()
                                 if any(op == '==' and set((p, q)) == set((vk, 'n:-1')) for (op, p, q) in fs):
                                     return ('source-read', '%s re-read each iteration, exits on the sentinel and on EOF' % vk.split('#')[0], None)
+    # F2: every iteration reads a fresh value from a call into a local declared in the body, and leaves the loop
+    # when that value is the end-of-data sentinel (-1): the source is finite
+    if body is not None:
+        F = ctx.facts(f)
+        for d in walk(body):
+            if d.get('kind') == 'VarDecl' and kids(d) and _innermost_loop(d) is s and \
+                    any(y.get('kind') in ('CallExpr', 'CXXMemberCallExpr') for y in walk(kids(d)[-1])):
+                vk = '%s#%s' % (d.get('name'), d.get('id'))
+                if not _step_on_every_iteration(ctx, f, s, [(vk, d)]):
+                    continue
+                for x in walk(body):
+                    if x.get('kind') in ('ReturnStmt', 'BreakStmt') and (x.get('kind') == 'ReturnStmt' or _innermost_loop(x) is s):
+                        fs = F.facts_at_ast(x) or frozenset()
+                        if any(op == '==' and set((p, q)) == set((vk, 'n:-1')) for (op, p, q) in fs):
+                            return ('source-read', '%s read afresh each iteration, leaves on EOF' % vk.split('#')[0], None)
     return (None, 'no terminating idiom recognised', None)
 
 
